@@ -130,9 +130,12 @@ def op_case(draw):
     op = {"op": kind}
     if kind in ("active_int", "trim_int"):
         op["k"] = draw(st.integers(1, 16))
+        # the count / fraction may arrive as a NumPy scalar (result of an array computation) instead of a Python number
+        op["num"] = draw(st.sampled_from(["py", "py", "np64", "np32"]))
     elif kind in ("active_frac", "trim_frac"):
         op["j"] = draw(st.integers(0, 13))
         op["t"] = draw(gen.q(0.25, 0.75))
+        op["num"] = draw(st.sampled_from(["py", "py", "np64", "np32"]))
     elif kind == "bad_int":
         op["k"] = draw(st.sampled_from([0, -1, -7]))
     elif kind == "bad_frac":
@@ -547,10 +550,23 @@ def c_identities(case, ctx):
 # clause 2: histories of active-component changes and trims
 
 
-def _fraction(ref_eigs, r, mm, j, t):
+def _fraction(ref_eigs, r, mm, j, t, num="py", ctx=None):
     cum = np.cumsum(ref_eigs[:mm]) / float(ref_eigs[:r].sum())
     lo = float(cum[j - 1]) if j > 0 else 0.0
-    return float(lo + t * (float(cum[j]) - lo))
+    f = float(lo + t * (float(cum[j]) - lo))
+    if num == "np64":
+        return np.float64(f)
+    if num == "np32":
+        # single precision moves the fraction by up to 6e-8 relative: only where that cannot cross a cumulative ratio
+        if 0.25 * (float(cum[j]) - lo) > 1e-6:
+            return np.float32(f)
+        if ctx is not None:
+            ctx.event("float32 fraction too close to a cumulative ratio: Python float used")
+    return f
+
+
+def _count(k, num):
+    return {"np64": np.int64, "np32": np.int32}.get(num, int)(k)
 
 
 def c_history(case, ctx):
@@ -578,21 +594,24 @@ def c_history(case, ctx):
         ctx.event("op=%s" % kind)
         before = snapshot(m)
         a0 = a
+        num = op.get("num", "py")
+        if num != "py":
+            ctx.event("numpy scalar argument (%s)" % num)
         if kind == "active_int":
-            m.n_active_components = int(op["k"])
+            m.n_active_components = _count(op["k"], num)
             a = min(op["k"], mm)
         elif kind == "active_frac":
             j = op["j"] % mm
-            f = _fraction(ref_eigs, r, mm, j, op["t"])
+            f = _fraction(ref_eigs, r, mm, j, op["t"], num, ctx)
             m.n_active_components = f
             a = j + 1
         elif kind == "trim_int":
-            m.trim_components(int(op["k"]))
+            m.trim_components(_count(op["k"], num))
             a = min(op["k"], mm)
             mm = min(mm, a)
         elif kind == "trim_frac":
             j = op["j"] % mm
-            f = _fraction(ref_eigs, r, mm, j, op["t"])
+            f = _fraction(ref_eigs, r, mm, j, op["t"], num, ctx)
             m.trim_components(f)
             a = j + 1
             mm = a
